@@ -67,6 +67,9 @@ func (propC19) Gen(r *Rand) *Plan {
 		} else {
 			g := NewTmplGen(r)
 			p.Setup = []Op{{Op: "SetTemplate", S: g.Gen(2)}}
+			// the order of the setters around SetTemplate: automatic variables off before it (the usual one), or left
+			// on with the caller's default map handed over afterwards, possibly lacking a name the template uses
+			p.Config["auto"] = r.Pick([]string{"off", "off", "on", "on-drop"})
 			tp := TaskPlan{}
 			for s := 0; s < 3; s++ {
 				vs := VarSet{}
@@ -137,6 +140,20 @@ func (propC19) Gen(r *Rand) *Plan {
 			cmp := "(" + r.Pick(c19TwinFamilies[k].left) + " " + r.Pick([]string{"<", ">", "=", "<>", "<=", ">="}) + " s9)"
 			text = r.Pick([]string{cmp, g.fn("Array") + "(" + cmp + ", " + text + ")", g.fn("If") + "(" + cmp + ", 1, 2)"})
 		}
+		// a variable that holds an Object (a value of the caller's own type) as left operand of a comparison
+		// with an ordinary variable: conversions towards Object hand operands through rather than copy them
+		objVar := r.Bool(0.05)
+		if objVar {
+			rhs := g.varOf(r.Pick([]string{"int", "str", "float", "bool"}))
+			if rhs == "" {
+				rhs = "1"
+			}
+			cmp := "(o9 " + r.Pick([]string{"=", "<>", "!="}) + " " + rhs + ")"
+			if r.Bool(0.3) {
+				cmp = "(o9 " + g.kw("IN") + " " + g.fn("Array") + "(" + rhs + ", 2))"
+			}
+			text = r.Pick([]string{cmp, g.fn("Array") + "(" + cmp + ", " + text + ")", g.fn("Array") + "(" + text + ", " + cmp + ", " + cmp + ")"})
+		}
 		nilVar := r.Bool(0.1)
 		if nilVar {
 			// a variable whose Value() is nil (the caller did SetValue(nil)), referenced where its value is never
@@ -165,7 +182,10 @@ func (propC19) Gen(r *Rand) *Plan {
 			if twinFam != nil {
 				extra["s9"] = func() Val { return VStr(twinFam[r.Intn(len(twinFam))]) }
 			}
-			for _, name := range []string{"nilq", "s9"} {
+			if objVar {
+				extra["o9"] = func() Val { return Val{T: "Object", I: int64(r.Intn(3))} }
+			}
+			for _, name := range []string{"nilq", "s9", "o9"} {
 				if mk, ok := extra[name]; ok {
 					for _, vs := range tp.Sets {
 						vs[name] = mk()
@@ -1052,6 +1072,22 @@ func c19SequentialRepeat(p *Plan, run *Run, out *Outcome) *Outcome {
 		return i % len(sets)
 	}
 	evals := 0
+	auto := p.Cfg("auto", "off")
+	// defaultMap: the caller's default variables of a template (a new map each time); with "on-drop" without the
+	// alphabetically first name
+	defaultMap := func() map[string]string {
+		m := buildMap(sets[0])
+		if auto == "on-drop" && len(m) > 1 {
+			first := ""
+			for k := range m {
+				if first == "" || k < first {
+					first = k
+				}
+			}
+			delete(m, first)
+		}
+		return m
+	}
 	run.Solo(func() {
 		refs := map[int]string{}
 		var calc *calculator.ExpressionCalculator
@@ -1069,9 +1105,11 @@ func c19SequentialRepeat(p *Plan, run *Run, out *Outcome) *Outcome {
 			}()
 			if isTmpl {
 				tmpl = mustache.NewMustacheTemplate()
-				tmpl.SetAutoVariables(false)
+				if auto == "off" {
+					tmpl.SetAutoVariables(false)
+				}
 				setupErr = tmpl.SetTemplate(text)
-				tmpl.SetDefaultVariables(buildMap(sets[0]))
+				tmpl.SetDefaultVariables(defaultMap())
 			} else {
 				calc = calculator.NewExpressionCalculator()
 				calc.SetVariantOperations(opsManager(ops))
@@ -1116,12 +1154,14 @@ func c19SequentialRepeat(p *Plan, run *Run, out *Outcome) *Outcome {
 					t := tmpl
 					if fresh {
 						t = mustache.NewMustacheTemplate()
-						t.SetAutoVariables(false)
+						if auto == "off" {
+							t.SetAutoVariables(false)
+						}
 						if err := t.SetTemplate(text); err != nil {
 							s.err = err
 							return
 						}
-						t.SetDefaultVariables(buildMap(sets[0]))
+						t.SetDefaultVariables(defaultMap())
 					}
 					if k < 0 {
 						s.str, s.err = t.Evaluate()
